@@ -387,6 +387,10 @@ func main() {
 	}
 	idx, n, isShard := r.Shard()
 	if !isShard {
+		// part 0: reload histories on the real backends (pass-through mode, parallel)
+		runtime.GOMAXPROCS(runtime.NumCPU())
+		realHistories(r, buildTemplates(dir), r.Pick(3, 4))
+		runtime.GOMAXPROCS(1)
 		r.ForkShards(vlib.Workers())
 	} else {
 		for u := idx; u < len(scs); u += n {
@@ -425,12 +429,12 @@ func main() {
 		r.Finish()
 	}
 	r.Set("schedule_preemption_bound", bound)
-	r.Set("states", r.Int("schedule_distinct_states"))
+	r.Set("states", r.Int("schedule_distinct_states")+r.Int("real_histories"))
 	r.Set("transitions", r.Int("schedule_steps"))
-	r.Set("evaluations", r.Int("schedule_executions"))
-	r.Set("traces_validated_against_impl", r.Int("schedule_executions"))
+	r.Set("evaluations", r.Int("schedule_executions")+r.Int("real_histories"))
+	r.Set("traces_validated_against_impl", r.Int("schedule_executions")+r.Int("real_histories"))
 	r.Set("distinct_nontrivial", r.Int("distinct_outcomes"))
-	r.Set("rule", "for every reload script over {"+strings.Join(alphabet, ",")+"} up to the length bound and both reload styles: every interleaving within the preemption bound of the reload thread with two query threads (MX+A; NXDOMAIN/referral) on the real instrumented FBDNSDB/db.DB/cdbdriver code over generation-stamped CDB files behind a proxy DBI (each backend call a scheduling point); states = distinct state signatures at choice points; evaluations = complete executions checked; nontrivial = distinct (scenario, verdict-set) outcomes. Oracle: each response's generation stamps are a single generation (A), lie between the generation of the last reload that returned before the query started and that of the last reload started before it ended, failed reloads excluded (V, F), never decrease per thread (M); partial reloads act on the path last switched to (P); every query gets exactly one response")
+	r.Set("rule", "part 0: every sequence of <=3 (quick) / <=4 (thorough) ops over {full reload to path A/B, primary publishes a new generation at A/B, partial reload} replayed on the real handler over real CDB / RocksDB v1 / v2 backends (real secondary catch-up against a real primary), the generation served checked after every op. schedules: for every reload script over {"+strings.Join(alphabet, ",")+"} up to the length bound and both reload styles: every interleaving within the preemption bound of the reload thread with two query threads (MX+A; NXDOMAIN/referral) on the real instrumented FBDNSDB/db.DB/cdbdriver code over generation-stamped CDB files behind a proxy DBI (each backend call a scheduling point); states = distinct state signatures at choice points; evaluations = complete executions checked; nontrivial = distinct (scenario, verdict-set) outcomes. Oracle: each response's generation stamps are a single generation (A), lie between the generation of the last reload that returned before the query started and that of the last reload started before it ended, failed reloads excluded (V, F), never decrease per thread (M); partial reloads act on the path last switched to (P); every query gets exactly one response")
 	r.Assume = []string{"RocksDB-like in-place catch-up is modelled by a proxy that switches which real CDB generation file it reads; real RocksDB secondary catch-up is not executed here",
 		"schedules beyond the preemption bound, more than two query threads and scripts beyond the length bound are outside the claim"}
 	r.Finish()
